@@ -36,10 +36,11 @@ func FlattenItemCollection(col ItemCollection) ItemCollection {
 	if col == nil {
 		return col
 	}
-	for k, it := range ItemCollectionDeduplication(&col) {
-		if iri := it.GetLink(); iri != "" {
-			col[k] = iri
-		}
+	// NOTE: the de-duplicated copy is not index aligned with col (it has no entry for nil or untyped link members),
+	// so the members are flattened in place instead of being overwritten from the copy
+	ItemCollectionDeduplication(&col)
+	for k, it := range col {
+		col[k] = FlattenToIRI(it)
 	}
 	return col
 }
